@@ -189,3 +189,25 @@ CONTRACTS[ST + 'StabilizerState.expect#state'] = dict(
     ensures=[],
     modifies=[], returns='real',
 )
+
+# ------------------------------------------------------------------ C20: multiplication by the units +1, i, -1, -i and negation
+for _tag, _c, _k in (('1', 1, 0), ('i', 1j, 1), ('m1', -1, 2), ('mi', -1j, 3)):
+    CONTRACTS[PA + 'Pauli.__rmul__#' + _tag] = dict(
+        params=[('self', PAULI), ('c', ('const', _c))],
+        requires=['0 <= self.p <= 3'],
+        ensures=['same(result.g, self.g)', 'result.p == (self.p + %d) %% 4' % _k],
+        modifies=[], returns=dict(PAULI, exact=False),
+    )
+    CONTRACTS[PA + 'PauliList.__rmul__#' + _tag] = dict(
+        params=[('self', dict(PLIST, exact=True)), ('c', ('const', _c))],
+        requires=['phases1(self.ps)'],
+        ensures=['same(result.gs, self.gs)', 'len(result.ps) == len(self.ps)',
+                 'forall(j, 0, len(self.ps), result.ps[j] == (self.ps[j] + %d) %% 4)' % _k],
+        modifies=[], returns=PLIST,
+    )
+CONTRACTS[PA + 'PauliList.__neg__'] = dict(
+    params=[('self', dict(PLIST, exact=True))],
+    requires=['phases1(self.ps)'],
+    ensures=['same(result.gs, self.gs)', 'len(result.ps) == len(self.ps)', 'forall(j, 0, len(self.ps), result.ps[j] == (self.ps[j] + 2) % 4)'],
+    modifies=[], returns=PLIST,
+)
